@@ -186,6 +186,7 @@ func cryptoMixRun(c *core.Ctx, mine func() bool) (n int64) {
 			continue
 		}
 		for _, b := range al {
+			c.Tick()
 			cryptoMixExec(c, cryptoMix{Key: key, Steps: []mixStep{a, b}})
 			n++
 			if c.Prop != "C08" {
